@@ -314,3 +314,62 @@ def x2(facts, tier):
         yield ob(["C16"], "X2", tr, "pass" if ok else "violation", f"{im['file']}:{im['line']}",
                  f"unsafe impl {tr} for AbiConnection<T> requires T: {tr}" if ok else
                  f"unsafe impl {tr} for AbiConnection<T> has no `T: {tr}` bound: a connection to a non-thread-safe implementation can cross threads")
+
+
+# ---------------------------------------------------------------------------------------------
+# W11: primitives are written and read unmodified
+
+PRIMS = {"u8", "i8", "u16", "i16", "u32", "i32", "u64", "i64", "u128", "i128", "usize", "isize", "f32", "f64", "bool", "char"}
+ALTERING_OPS = {"Add", "Sub", "Mul", "Div", "Rem", "BitXor", "BitAnd", "BitOr", "Shl", "Shr"}
+ALTERING_CALLS = ("wrapping_", "saturating_", "overflowing_", "swap_bytes", "reverse_bits", "rotate_", "to_be", "from_be", "to_bits_be",
+                  "swap", "not", "neg", "abs", "pow", "leading_", "trailing_", "count_", "checked_add", "checked_sub", "checked_mul")
+
+
+def prim_value_fns(facts):
+    out = []
+    for f in facts.fns_of_crate("savefile"):
+        im = f.get("impl") or {}
+        fid = f["id"]
+        st = im.get("self_ty", "")
+        base = st[len("core::sync::atomic::Atomic<"):-1] if st.startswith("core::sync::atomic::Atomic<") else st
+        if im.get("trait") in ("savefile::Serialize", "savefile::Deserialize") and base in PRIMS:
+            out.append(f)
+        name = f.get("name") or ""
+        if (fid.startswith("savefile::Serializer<") and name.startswith("write_") and name[6:] in PRIMS) or \
+                (fid.startswith("savefile::Deserializer<") and name.startswith("read_") and name[5:] in PRIMS):
+            out.append(f)
+    return out
+
+
+@rule("W11", ["C01", "C02"], floor=60, doc="primitive values travel unmodified: the Serialize/Deserialize impls of the primitive and atomic types and the "
+      "Serializer/Deserializer primitive helpers contain no arithmetic, bit manipulation or byte swapping on the value; bool is exactly 1/0 and `== 1`")
+def w11(facts, tier):
+    for f in prim_value_fns(facts):
+        bad = []
+        for x in walk(f["body"]):
+            k = x.get("k")
+            if k in ("Bin", "AssignOp") and x.get("op") in ALTERING_OPS:
+                bad.append(f"`{x['op']}`")
+            if k == "Un" and x.get("op") in ("Neg",):
+                bad.append("negation")
+            if k == "Call":
+                name = (callee(x) or "").rsplit("::", 1)[-1]
+                if name.startswith(ALTERING_CALLS) and not name.startswith(("to_bits", "from_bits")):
+                    bad.append(f"call {name}")
+                if name in ("to_be_bytes", "to_ne_bytes", "from_be_bytes", "from_ne_bytes"):
+                    bad.append(f"call {name}")
+            if k == "Lit" and "int" in x and x["int"] not in (0, 1) and x.get("ty") in PRIMS and not f["id"].endswith(("read_usize", "read_isize")):
+                bad.append(f"literal {x['int']}")
+        key = f["id"]
+        # bool: writer `if v {1} else {0}`, reader `== 1`
+        if key.endswith("::write_bool"):
+            ok = any(x.get("k") == "If" and peel_block(x["t"]).get("int") == 1 and x.get("f") and peel_block(x["f"]).get("int") == 0 for x in walk(f["body"]))
+            if not ok:
+                bad.append("bool is not written as `if v {1} else {0}`")
+        if key.endswith("::read_bool"):
+            ok = any(x.get("k") == "Bin" and x["op"] == "Eq" and peel(x["r"]).get("int") == 1 for x in walk(f["body"]))
+            if not ok:
+                bad.append("bool is not read as `byte == 1`")
+        yield ob(["C01", "C02"], "W11", key, "violation" if bad else "pass", where(f),
+                 f"{key}: value-altering construct(s) {sorted(set(bad))}: a primitive no longer round-trips / is no longer encoded as documented" if bad
+                 else "value passes unmodified between memory and the byte sink")
